@@ -42,6 +42,8 @@ var typePatterns = [][]uint16{
 	{0x0001, 0x0020, 0x8020, 0x8028, 0xFFFF},
 	{0x0020, 0x0020, 0x8020, 0x0020, 0x8020},
 	{0x8020, 0x0008, 0x8028, 0x0008, 0x8028},
+	{0x8028, 0x0006, 0x8028, 0x8028, 0x0006},
+	{0x0008, 0x0008, 0x0006, 0x0008, 0x8028},
 }
 
 var typeWords = []uint16{0x0001, 0xC001, 0x0111, 0xFFFF, 0x3FFF, 0x8000}
@@ -183,6 +185,53 @@ func sweepLengthStructures(c *Ctx, bd int, full bool, fn func(in *decodeInput, s
 			in.Fam = "lenstruct"
 		}
 	})
+}
+
+// sweepTypes runs fn on messages whose single / last attribute carries every 16-bit type word, in five shapes:
+// well-formed, value cut short, last attribute without its padding (1..3 bytes missing), and the same behind a
+// first well-formed attribute. Decoders must not treat any attribute type specially.
+func sweepTypes(c *Ctx, fn func(in *decodeInput, seq int64)) {
+	in := &decodeInput{Fam: "types"}
+	buf := make([]byte, 64)
+	var seq int64
+	for t := 0; t < 65536; t++ {
+		for shape := 0; shape < 6; shape++ {
+			seq++
+			if !c.Mine(seq) {
+				continue
+			}
+			for i := range buf {
+				buf[i] = byte(0x30 + i)
+			}
+			n := 0
+			put := func(declared int, attrs ...[3]int) { // attr = {type, declared value length, bytes actually present}
+				off := 20
+				for _, a := range attrs {
+					buf[off], buf[off+1] = byte(a[0]>>8), byte(a[0])
+					buf[off+2], buf[off+3] = byte(a[1]>>8), byte(a[1])
+					off += 4 + a[2]
+				}
+				putHeader(buf, 0x0001, declared, goodCookie, byte(t))
+				n = off
+			}
+			switch shape {
+			case 0:
+				put(12, [3]int{t, 5, 8})
+			case 1:
+				put(8, [3]int{t, 8, 4}) // value cut short by the declared length
+			case 2:
+				put(9, [3]int{t, 5, 5}) // unpadded last attribute, body ends with the value
+			case 3:
+				put(11, [3]int{t, 5, 7}) // one padding byte missing
+			case 4:
+				put(20, [3]int{0x0006, 3, 4}, [3]int{t, 7, 8})
+			case 5:
+				put(19, [3]int{0x0006, 3, 4}, [3]int{t, 7, 7})
+			}
+			in.Bytes = buf[:n]
+			fn(in, seq)
+		}
+	}
 }
 
 var tinyAlphabet = []byte{0x00, 0x01, 0x03, 0x04, 0x05, 0x08, 0xFF}
